@@ -44,6 +44,8 @@ def one_pair(args):
             opt = cls(space, random_state=seed)
             with scen.time_limit(120):
                 opt.search(make_f(ls, sign), n_iter=n_iter, verbosity=False)
+        except C.Infra:
+            raise
         except Exception as e:  # noqa
             return dict(name=name, seed=seed, error=type(e).__name__)
         vals = [f_true({k: row[k] for k in space}) for row in opt.results_mang.results_list]
